@@ -124,7 +124,7 @@ def main(argv):
     return v.finish(
         level='proof',
         checker_cmd='gen/diffflags.py ; cd coq && make theories/Corr/C14.vo theories/Props/C14.vo ; coqc work/audit_C14.v (Print Assumptions) ; harness/target/debug/c14 labels|parse|elab|flags|text ; coqc work/cases_C14*/*.v',
-        trusted_base=['modelled, not verified: Model/Diff.v is a hand-written restatement of context/diff_flags.rs, bitset.rs (8-bit use), diff_switch_utils.rs and llir/lower.rs elaborate_diff_switches, parameterised by the constants gen/diffflags.py reads from diff_flags.rs (NUM_BITS, flag-name character ranges, built-in names, the characters - + *, the shape of define_flag)'],
+        trusted_base=['modelled, not verified: Model/Diff.v is a hand-written restatement of context/diff_flags.rs, bitset.rs (8-bit use), diff_switch_utils.rs and llir/lower.rs elaborate_diff_switches, parameterised by the constants gen/diffflags.py reads from diff_flags.rs, llir/lower.rs and diff_switch_utils.rs (NUM_BITS, flag-name character ranges, built-in names, the characters - + *, the shape of define_flag, whether define_flag_from_mapfile rejects re-pointed names, the text of elaborate_diff_switches / select_diff_switch_case / explicit_case_bitmasks, whether nested switches contribute explicit positions)'],
         assumptions=['C14_label_roundtrip holds under the invariant Consistent (every bit prints as a name that parses back to it); a mapfile that re-points a printed name breaks it (known finding, fixes/c14-flag-name-repoint.diff)',
                      'C14_elaborate_exactly_one is for flat switches; a switch nested inside a switch case is mis-elaborated (known finding, fixes/c14-nested-diff-switch.diff)',
                      'the assignment path for non-simple switch cases (stackless.rs lower_assign_diff_switch) and the inverse recognize_diff_switch are not modelled; the decompile-recompile oracle exercises recognize_diff_switch only on the 256-mask carrier script'])
